@@ -2177,7 +2177,9 @@ class Parser:
             try:
                 return self._parse(parser, raw_tokens, sql)
             except ParseError as e:
-                e.errors[0]["into_expression"] = expression_type
+                # Errors raised outside of raise_error (e.g. by function builders) carry no details
+                if e.errors:
+                    e.errors[0]["into_expression"] = expression_type
                 errors.append(e)
 
         raise ParseError(
